@@ -146,7 +146,7 @@ func contractMentions(ct *Contract, prop string) bool {
 	}
 	has := func(cs []*Clause) bool {
 		for _, c := range cs {
-			if labelProp(c.Label) == prop {
+			if labelHasProp(c.Label, prop) {
 				return true
 			}
 		}
